@@ -310,8 +310,12 @@ def bases(tier):
     simple += [S.cp(None, n) for n in nth]
     simple += [S.cp(None, ('lang', ('en',))), S.cp(None, ('lang', ('de-DE', '*-x', ''))), S.cp(None, ('dir', 'ltr')), S.cp(S.T('p'), ('dir', 'rtl')),
                S.cp(None, ('contains', False, ('x y', 'z'))), S.cp(None, ('contains', True, ('a"b',))), S.cp(None, ('contains', False, ('fr',)), ('lang', ('en', 'fr')))]
+    simple += [S.cp(None, ('class', 'x ')), S.cp(None, ('id', 'a b')), S.cp(None, ('id', ' lead')), S.cp(S.T('t '), ('class', 'end\t')),
+               S.cp(None, ('class', 'nb\xa0')), S.cp(None, ('attr', None, 'k ', '=', 'v ', None)), S.cp(None, ('id', 'q"')), S.cp(None, ('class', "o'"))]
     for s1 in simple:
         out.append((S.cx(s1),))
+    out.append((S.cx(a, '>', S.cp(None, ('class', 'x '))),))
+    out.append((S.cx(S.cp(None, ('id', 'a b')), ' ', a), S.cx(S.cp(None, ('class', 'y ')))))
     for k in S.COMBS:
         out.append((S.cx(a, k, b),))
         out.append((S.cx(S.cp(S.T('a'), cls), k, S.cp(None, ('pc', 'first-child'))),))
